@@ -44,5 +44,5 @@ def outcome_class(o):
     if a is NOTHING:
         return 'nothing'
     if isinstance(a, list):
-        return 'batch[%s]' % ','.join(str(c) for c in sorted(set(o['codes'] or ())))
+        return 'batch[%s]' % ','.join(sorted({str(c) for c in (o['codes'] or ())}))
     return 'single[%s]' % (o['codes'][0] if o['codes'] else '?')
